@@ -170,7 +170,7 @@ CLAIMED["C02"] = (
 CLAIMED["C12"] = (
     "Lean 4 theorems on the frame bookkeeping of CompositeFrame (any number of sub-frames, any axes_order lists): scattering a sub-frame's "
     "per-axis metadata by axes_order puts the entry of (frame f, local axis k) at world axis axes_order[f][k] and nowhere else "
-    "(metadata_aligned), duplicate or incomplete axes are rejected, each sub-frame is handed exactly the world values on its own axes in its "
+    "(metadata_aligned), the object components follow the same scatter (components_aligned), duplicate or incomplete axes are rejected, each sub-frame is handed exactly the world values on its own axes in its "
     "local order (objects_get_own_axes), coordinate_to_quantity after coordinates is the identity on world vectors for every permutation "
     "(objects_roundtrip), and the class-key renaming yields pairwise distinct keys for any list of frames and keys (rename_unique, "
     "pickFresh_not_mem). PARTIAL: astropy's SkyCoord/SpectralCoord/Time/StokesCoord constructors are tagged tuples in the model; lone frames "
@@ -214,8 +214,8 @@ CLAIMED["C09"] = (
 
 CLAIMED["C11"] = (
     "Lean 4 theorems: (groups) for EVERY list of axis sets the merge loop of _separable_groups returns pairwise disjoint groups that cover "
-    "exactly the input axes and never split world axes sharing a pixel axis (groups_pairwise_disjoint, groups_cover, "
-    "input_set_in_one_group; induction over the loop with the fixpoint invariant of the fixed code); (table) with the CRPIX/CDELT/CRVAL that "
+    "exactly the input axes, never split world axes sharing a pixel axis, and are connected - i.e. they are exactly the "
+    "connected components (groups_pairwise_disjoint, groups_cover, input_set_in_one_group, groups_connected; induction over the loop with the fixpoint invariant of the fixed code); (table) with the CRPIX/CDELT/CRVAL that "
     "_to_fits_tab writes, the FITS Paper III index at the k-th node is exactly k+1 for every box, node count and k, first/last nodes are "
     "the box ends, the reader returns the tabulated value at a node and a convex combination of neighbours between nodes, and the node "
     "spacing never exceeds the requested step (tab_node_exact, tab_spans_box, reader_at_node, tab_between_nodes, step_le_sampling); "
